@@ -43,6 +43,9 @@ Proof. intro H. subst n. rewrite firstn_app, Nat.sub_diag, firstn_all. cbn. appl
 Lemma skipn_app_exact {A} (a b : list A) n : length a = n -> skipn n (a ++ b) = b.
 Proof. intro H. subst n. rewrite skipn_app, Nat.sub_diag, skipn_all. reflexivity. Qed.
 
+Lemma enc_b1_mod128 h : enc_b1 h mod 128 = if 65535 <? h_plen h then 127 else if 125 <? h_plen h then 126 else h_plen h.
+Proof. unfold enc_b1, bit. destruct (h_masked h); destruct (N.ltb_spec 65535 (h_plen h)); destruct (N.ltb_spec 125 (h_plen h)); lia. Qed.
+
 Lemma hdr_eta h m k : h_masked h = m -> h_key h = k ->
   {| h_fin := h_fin h; h_rsv1 := h_rsv1 h; h_rsv2 := h_rsv2 h; h_rsv3 := h_rsv3 h; h_opc := h_opc h;
      h_masked := m; h_key := k; h_plen := h_plen h |} = h.
@@ -61,50 +64,37 @@ Proof.
   rewrite L7. clear L7 M.
   set (tail := (if h_masked h then key4 (h_key h) else []) ++ rest).
   rewrite <- app_assoc. fold tail.
-  assert (TL : if h_masked h then (4 <= length tail)%nat /\ firstn 4 tail = key4 (h_key h) /\ skipn 4 tail = rest else tail = rest).
+  assert (TL : if h_masked h then take_n 4 tail = Some (key4 (h_key h), rest) else tail = rest).
   { unfold tail. destruct (h_masked h).
-    - rewrite app_length, key4_length. split; [lia|]. split.
-      + apply firstn_app_exact, key4_length. + apply skipn_app_exact, key4_length.
+    - rewrite <- (key4_length (h_key h)). apply take_n_app.
     - reflexivity. }
   clearbody tail.
+  assert (FIN : (if h_masked h
+     then match take_n 4 tail with
+          | Some (kb, r2) => DecOk {| h_fin := h_fin h; h_rsv1 := h_rsv1 h; h_rsv2 := h_rsv2 h; h_rsv3 := h_rsv3 h; h_opc := h_opc h;
+                                      h_masked := true; h_key := key_of4 kb; h_plen := h_plen h |} r2
+          | None => DecShort end
+     else DecOk {| h_fin := h_fin h; h_rsv1 := h_rsv1 h; h_rsv2 := h_rsv2 h; h_rsv3 := h_rsv3 h; h_opc := h_opc h;
+                   h_masked := false; h_key := zero_key; h_plen := h_plen h |} tail) = DecOk h rest).
+  { destruct (h_masked h) eqn:Em.
+    - rewrite TL, key_of4_key4. rewrite hdr_eta by auto. reflexivity.
+    - rewrite TL. specialize (Hz eq_refl). rewrite hdr_eta by auto. reflexivity. }
   unfold enc_ext.
   destruct (N.ltb_spec 65535 (h_plen h)) as [Hbig|Hnb].
-  - (* 64-bit length *)
-    change (127 =? 126) with false. change (127 =? 127) with true. cbv iota.
-    rewrite app_length, be_bytes_length.
-    destruct (Nat.ltb_spec (8 + length tail) 8); [lia|].
+  - change (127 =? 126) with false. change (127 =? 127) with true. cbv iota.
+    rewrite <- (be_bytes_length 8 (h_plen h)) at 1. rewrite take_n_app.
     change (Nat.eqb 8 0) with false. cbv iota.
-    rewrite firstn_app_exact by apply be_bytes_length.
-    rewrite skipn_app_exact by apply be_bytes_length.
     rewrite be_val_bytes by (change (256 ^ N.of_nat 8) with 18446744073709551616; lia).
-    destruct (N.leb_spec 9223372036854775808 (h_plen h)); [lia|].
-    destruct (h_masked h) eqn:Em.
-    + destruct TL as (T1 & T2 & T3). destruct (Nat.ltb_spec (length tail) 4); [lia|].
-      rewrite T2, T3, key_of4_key4. rewrite hdr_eta by auto. reflexivity.
-    + rewrite TL. specialize (Hz eq_refl). rewrite hdr_eta by auto. reflexivity.
+    destruct (N.leb_spec 9223372036854775808 (h_plen h)); [lia|]. exact FIN.
   - destruct (N.ltb_spec 125 (h_plen h)) as [Hmid|Hsmall].
-    + (* 16-bit length *)
-      change (126 =? 126) with true. cbv iota.
-      rewrite app_length, be_bytes_length.
-      destruct (Nat.ltb_spec (2 + length tail) 2); [lia|].
+    + change (126 =? 126) with true. cbv iota.
+      rewrite <- (be_bytes_length 2 (h_plen h)) at 1. rewrite take_n_app.
       change (Nat.eqb 2 0) with false. cbv iota.
-      rewrite firstn_app_exact by apply be_bytes_length.
-      rewrite skipn_app_exact by apply be_bytes_length.
       rewrite be_val_bytes by (change (256 ^ N.of_nat 2) with 65536; lia).
-      destruct (N.leb_spec 9223372036854775808 (h_plen h)); [lia|].
-      destruct (h_masked h) eqn:Em.
-      * destruct TL as (T1 & T2 & T3). destruct (Nat.ltb_spec (length tail) 4); [lia|].
-        rewrite T2, T3, key_of4_key4. rewrite hdr_eta by auto. reflexivity.
-      * rewrite TL. specialize (Hz eq_refl). rewrite hdr_eta by auto. reflexivity.
-    + (* 7-bit length *)
-      destruct (N.eqb_spec (h_plen h) 126); [lia|]. destruct (N.eqb_spec (h_plen h) 127); [lia|].
-      cbn [app length]. destruct (Nat.ltb_spec (length tail) 0); [lia|].
-      change (Nat.eqb 0 0) with true. cbv iota. change (skipn 0 tail) with tail.
-      destruct (N.leb_spec 9223372036854775808 (h_plen h)); [lia|].
-      destruct (h_masked h) eqn:Em.
-      * destruct TL as (T1 & T2 & T3). destruct (Nat.ltb_spec (length tail) 4); [lia|].
-        rewrite T2, T3, key_of4_key4. rewrite hdr_eta by auto. reflexivity.
-      * rewrite TL. specialize (Hz eq_refl). rewrite hdr_eta by auto. reflexivity.
+      destruct (N.leb_spec 9223372036854775808 (h_plen h)); [lia|]. exact FIN.
+    + destruct (N.eqb_spec (h_plen h) 126); [lia|]. destruct (N.eqb_spec (h_plen h) 127); [lia|].
+      cbn [app take_n]. change (Nat.eqb 0 0) with true. cbv iota.
+      destruct (N.leb_spec 9223372036854775808 (h_plen h)); [lia|]. exact FIN.
 Qed.
 
 Lemma key4_wf k : wf_key k -> wf_bytes (key4 k).
